@@ -110,20 +110,6 @@ quick: yes
 funcs: spifconf_shell_expand
 */
 /*@unit
-name: exact_call_args
-define: U_EXACT, A_SPACE, A_PCT, A_PAREN, SHAPE="%a(??)", NMAX=6, BUFF=32, VERIF_EXACT_LIBC, VERIF_OWN_STRLEN, VERIF_OWN_STRCMP, VERIF_OWN_STRDUP, VERIF_OWN_STRCHR
-src: conf.c
-tier: B
-bound: inputs of the shape %a(??) -- each ? any of {a, space, %, (, )} -- balanced; line-buffer limit CONFIG_BUFF scaled to 32 bytes (stated re-binding)
-unwind: 8
-flags: --unwindset strlen.0:14,strcpy.0:14,vb_a.0:14,spiftool_safe_strncpy.0:12,mk_str.0:6,strncasecmp.0:3,spifconf_shell_expand:1,spifconf_shell_expand.7:2,spifconf_shell_expand.10:6,spifconf_shell_expand.15:1,spifconf_shell_expand.21:1,spifconf_shell_expand.22:1,spifconf_shell_expand.23:1,spifconf_shell_expand.28:7,harness.1:42
-objbits: 10
-backend: sat
-timeout: 600
-quick: yes
-funcs: spifconf_shell_expand
-*/
-/*@unit
 name: exact_call_empty
 define: U_EXACT, A_SPACE, A_PCT, A_PAREN, SHAPE="?%a()?", NMAX=6, BUFF=32, VERIF_EXACT_LIBC, VERIF_OWN_STRLEN, VERIF_OWN_STRCMP, VERIF_OWN_STRDUP, VERIF_OWN_STRCHR
 src: conf.c
@@ -166,13 +152,13 @@ quick: yes
 funcs: spifconf_shell_expand
 */
 /*@unit
-name: exact_call_nested
-define: U_EXACT, A_SPACE, A_PCT, A_PAREN, SHAPE="%a(%a(?))", NMAX=9, BUFF=32, VERIF_EXACT_LIBC, VERIF_OWN_STRLEN, VERIF_OWN_STRCMP, VERIF_OWN_STRDUP, VERIF_OWN_STRCHR
+name: exact_call_quoted
+define: U_EXACT, A_SPACE, A_TILDE, A_SQ, A_DQ, A_PCT_FIXED, SHAPE="?%a(~)?", NMAX=7, BUFF=32, VERIF_EXACT_LIBC, VERIF_OWN_STRLEN, VERIF_OWN_STRCMP, VERIF_OWN_STRDUP, VERIF_OWN_STRCHR
 src: conf.c
 tier: B
-bound: inputs of the shape %a(%a(?)) and %a(?%a()) -- each ? any of {a, space, %, (, )} -- nested calls, innermost first; line-buffer limit CONFIG_BUFF scaled to 32 bytes (stated re-binding)
-unwind: 11
-flags: --unwindset strlen.0:20,strcpy.0:20,vb_a.0:20,spiftool_safe_strncpy.0:12,mk_str.0:6,strncasecmp.0:3,spifconf_shell_expand:2,spifconf_shell_expand.7:2,spifconf_shell_expand.10:9,spifconf_shell_expand.15:1,spifconf_shell_expand.21:1,spifconf_shell_expand.22:1,spifconf_shell_expand.23:1,spifconf_shell_expand.28:10,harness.1:42
+bound: inputs of the shape ?%a(~)? -- each ? any of {a, space, ~, ', "}: a call inside quotes; line-buffer limit CONFIG_BUFF scaled to 32 bytes (stated re-binding)
+unwind: 9
+flags: --unwindset strlen.0:24,strcpy.0:24,vb_a.0:24,spiftool_safe_strncpy.0:12,mk_str.0:6,strncasecmp.0:3,spifconf_shell_expand:1,spifconf_shell_expand.7:2,spifconf_shell_expand.10:7,spifconf_shell_expand.15:1,spifconf_shell_expand.21:1,spifconf_shell_expand.22:1,spifconf_shell_expand.23:1,spifconf_shell_expand.28:8,harness.1:42
 objbits: 10
 backend: sat
 timeout: 600
@@ -180,27 +166,13 @@ quick: yes
 funcs: spifconf_shell_expand
 */
 /*@unit
-name: exact_call_nested2
-define: U_EXACT, A_SPACE, A_PCT, A_PAREN, SHAPE="%a(?%a())", NMAX=9, BUFF=32, VERIF_EXACT_LIBC, VERIF_OWN_STRLEN, VERIF_OWN_STRCMP, VERIF_OWN_STRDUP, VERIF_OWN_STRCHR
+name: exact_call_cases
+define: U_CASES, CASESET=1, A_SPACE, A_TILDE, A_BS, A_SQ, A_DQ, A_PCT, A_PAREN, NMAX=14, BUFF=32, VERIF_EXACT_LIBC, VERIF_OWN_STRLEN, VERIF_OWN_STRCMP, VERIF_OWN_STRDUP, VERIF_OWN_STRCHR
 src: conf.c
 tier: B
-bound: inputs of the shape %a(?%a()) -- each ? any of {a, space, %, (, )} -- nested calls, innermost first; line-buffer limit CONFIG_BUFF scaled to 32 bytes (stated re-binding)
-unwind: 11
-flags: --unwindset strlen.0:20,strcpy.0:20,vb_a.0:20,spiftool_safe_strncpy.0:12,mk_str.0:6,strncasecmp.0:3,spifconf_shell_expand:2,spifconf_shell_expand.7:2,spifconf_shell_expand.10:9,spifconf_shell_expand.15:1,spifconf_shell_expand.21:1,spifconf_shell_expand.22:1,spifconf_shell_expand.23:1,spifconf_shell_expand.28:10,harness.1:42
-objbits: 10
-backend: sat
-timeout: 600
-quick: yes
-funcs: spifconf_shell_expand
-*/
-/*@unit
-name: exact_call_seq
-define: U_EXACT, A_SPACE, A_PCT, A_PAREN, SHAPE="%a(?)%a(?)", NMAX=10, BUFF=32, VERIF_EXACT_LIBC, VERIF_OWN_STRLEN, VERIF_OWN_STRCMP, VERIF_OWN_STRDUP, VERIF_OWN_STRCHR
-src: conf.c
-tier: B
-bound: inputs of the shape %a(?)%a(?) -- each ? any of {a, space, %, (, )}; line-buffer limit CONFIG_BUFF scaled to 32 bytes (stated re-binding)
-unwind: 12
-flags: --unwindset strlen.0:20,strcpy.0:20,vb_a.0:20,spiftool_safe_strncpy.0:12,mk_str.0:6,strncasecmp.0:3,spifconf_shell_expand:1,spifconf_shell_expand.7:2,spifconf_shell_expand.10:10,spifconf_shell_expand.15:1,spifconf_shell_expand.21:1,spifconf_shell_expand.22:1,spifconf_shell_expand.23:1,spifconf_shell_expand.28:11,harness.1:42
+bound: 18 concrete inputs with calls of the built-in a: arguments with blanks, empty, nested two and three deep (innermost first), in sequence, inside quotes, with tilde / escape / quotes / parentheses inside the arguments; HOME and $a unset, empty or set; line-buffer limit CONFIG_BUFF scaled to 32 bytes (stated re-binding)
+unwind: 16
+flags: --unwindset strlen.0:26,strcpy.0:26,vb_a.0:26,spiftool_safe_strncpy.0:12,mk_str.0:6,strncasecmp.0:3,spifconf_shell_expand:3,spifconf_shell_expand.7:2,spifconf_shell_expand.10:14,spifconf_shell_expand.15:1,spifconf_shell_expand.21:1,spifconf_shell_expand.22:1,spifconf_shell_expand.23:1,spifconf_shell_expand.28:15,harness.0:20,harness.1:16,harness.2:20,check_exact.0:16,check_exact.1:42
 objbits: 10
 backend: sat
 timeout: 600
@@ -209,12 +181,12 @@ funcs: spifconf_shell_expand
 */
 /*@unit
 name: exact_call_lone_pct
-define: U_EXACT, A_SPACE, A_PCT, A_PAREN, D_FLAGS=RF_LONEPCT, D_NEED=RF_LONEPCT, SHAPE="?%???", NMAX=5, BUFF=32, VERIF_EXACT_LIBC, VERIF_OWN_STRLEN, VERIF_OWN_STRCMP, VERIF_OWN_STRDUP, VERIF_OWN_STRCHR
+define: U_CASES, CASESET=2, A_SPACE, A_PCT, A_PAREN, D_FLAGS=RF_LONEPCT, NMAX=14, BUFF=32, VERIF_EXACT_LIBC, VERIF_OWN_STRLEN, VERIF_OWN_STRCMP, VERIF_OWN_STRDUP, VERIF_OWN_STRCHR
 src: conf.c
 tier: B
-bound: inputs of the shape ?%??? -- each ? any of {a, space, %, (, )} -- with a % that starts no call (and is not followed by 'a )'); line-buffer limit CONFIG_BUFF scaled to 32 bytes (stated re-binding)
-unwind: 7
-flags: --unwindset strlen.0:14,strcpy.0:14,vb_a.0:14,spiftool_safe_strncpy.0:12,mk_str.0:6,strncasecmp.0:3,spifconf_shell_expand:1,spifconf_shell_expand.7:2,spifconf_shell_expand.10:5,spifconf_shell_expand.15:1,spifconf_shell_expand.21:1,spifconf_shell_expand.22:1,spifconf_shell_expand.23:1,spifconf_shell_expand.28:6,harness.1:42
+bound: 6 concrete inputs with a % that starts no call, not at the end of the input; line-buffer limit CONFIG_BUFF scaled to 32 bytes (stated re-binding)
+unwind: 16
+flags: --unwindset strlen.0:26,strcpy.0:26,vb_a.0:26,spiftool_safe_strncpy.0:12,mk_str.0:6,strncasecmp.0:3,spifconf_shell_expand:3,spifconf_shell_expand.7:2,spifconf_shell_expand.10:14,spifconf_shell_expand.15:1,spifconf_shell_expand.21:1,spifconf_shell_expand.22:1,spifconf_shell_expand.23:1,spifconf_shell_expand.28:15,harness.0:20,harness.1:16,harness.2:20,check_exact.0:16,check_exact.1:42
 objbits: 10
 backend: sat
 timeout: 600
@@ -222,27 +194,13 @@ quick: yes
 funcs: spifconf_shell_expand
 */
 /*@unit
-name: exact_call_mixed
-define: U_EXACT, A_SPACE, A_TILDE, A_BS, A_SQ, A_DQ, A_PCT_FIXED, SHAPE="%a(???)", NMAX=7, BUFF=32, VERIF_EXACT_LIBC, VERIF_OWN_STRLEN, VERIF_OWN_STRCMP, VERIF_OWN_STRDUP, VERIF_OWN_STRCHR
+name: exact_call_trailing_pct
+define: U_CASES, CASESET=3, A_SPACE, A_PCT, A_PAREN, D_FLAGS=RF_LONEPCT, NMAX=14, BUFF=32, VERIF_EXACT_LIBC, VERIF_OWN_STRLEN, VERIF_OWN_STRCMP, VERIF_OWN_STRDUP, VERIF_OWN_STRCHR
 src: conf.c
 tier: B
-bound: inputs of the shape %a(???) -- each ? any of {a, space, ~, backslash, ', "}: quotes, tildes and escapes inside call arguments; line-buffer limit CONFIG_BUFF scaled to 32 bytes (stated re-binding)
-unwind: 9
-flags: --unwindset strlen.0:24,strcpy.0:24,vb_a.0:24,spiftool_safe_strncpy.0:12,mk_str.0:6,strncasecmp.0:3,spifconf_shell_expand:1,spifconf_shell_expand.7:2,spifconf_shell_expand.10:7,spifconf_shell_expand.15:1,spifconf_shell_expand.21:1,spifconf_shell_expand.22:1,spifconf_shell_expand.23:1,spifconf_shell_expand.28:8,harness.1:42
-objbits: 10
-backend: sat
-timeout: 600
-quick: yes
-funcs: spifconf_shell_expand
-*/
-/*@unit
-name: exact_call_quoted
-define: U_EXACT, A_SPACE, A_TILDE, A_SQ, A_DQ, A_PCT_FIXED, SHAPE="?%a(~)?", NMAX=7, BUFF=32, VERIF_EXACT_LIBC, VERIF_OWN_STRLEN, VERIF_OWN_STRCMP, VERIF_OWN_STRDUP, VERIF_OWN_STRCHR
-src: conf.c
-tier: B
-bound: inputs of the shape ?%a(~)? -- each ? any of {a, space, ~, ', "}: a call inside quotes; line-buffer limit CONFIG_BUFF scaled to 32 bytes (stated re-binding)
-unwind: 9
-flags: --unwindset strlen.0:24,strcpy.0:24,vb_a.0:24,spiftool_safe_strncpy.0:12,mk_str.0:6,strncasecmp.0:3,spifconf_shell_expand:1,spifconf_shell_expand.7:2,spifconf_shell_expand.10:7,spifconf_shell_expand.15:1,spifconf_shell_expand.21:1,spifconf_shell_expand.22:1,spifconf_shell_expand.23:1,spifconf_shell_expand.28:8,harness.1:42
+bound: 3 concrete inputs that end in %; line-buffer limit CONFIG_BUFF scaled to 32 bytes (stated re-binding)
+unwind: 16
+flags: --unwindset strlen.0:26,strcpy.0:26,vb_a.0:26,spiftool_safe_strncpy.0:12,mk_str.0:6,strncasecmp.0:3,spifconf_shell_expand:3,spifconf_shell_expand.7:2,spifconf_shell_expand.10:14,spifconf_shell_expand.15:1,spifconf_shell_expand.21:1,spifconf_shell_expand.22:1,spifconf_shell_expand.23:1,spifconf_shell_expand.28:15,harness.0:20,harness.1:16,harness.2:20,check_exact.0:16,check_exact.1:42
 objbits: 10
 backend: sat
 timeout: 600
@@ -646,20 +604,17 @@ static void setup_builtins(void)                      /* table: "a" -> vb_a, the
     libast_debug_level = 0;
 }
 
-#ifdef U_EXACT
-void harness(void)
+#if defined(U_EXACT) || defined(U_CASES)
+#ifndef D_FLAGS
+# define D_FLAGS 0u
+#endif
+static void check_exact(void)                       /* w_in / w_len: the input */
 {
     char ref[R_OUTMAX];
     size_t rl, i;
     spif_charptr_t buf, r;
-    pick_input();
-    pick_environment();
-    setup_builtins();
     ref_flags = 0;
-    rl = ref_expand(w_in, w_len, ref, 2);
-#ifndef D_FLAGS
-# define D_FLAGS 0u
-#endif
+    rl = ref_expand(w_in, w_len, ref, 3);
     /* the unit's behaviour: exactly the inputs whose reference flags are D_FLAGS-compatible */
     __CPROVER_assume((ref_flags & ~(D_FLAGS)) == 0);
 #ifdef D_NEED
@@ -671,8 +626,44 @@ void harness(void)
     r = spifconf_shell_expand(buf);
     __CPROVER_assert(r == buf, "expansion succeeds and returns its argument");
     __CPROVER_assert(strlen((char *) buf) == rl, "length of the result equals the reference expansion");
-    for (i = 0; i <= rl; i++)
-        __CPROVER_assert(buf[i] == ref[i], "result equals the reference expansion (text before and after each construct preserved)");
+    for (i = 0; i < R_OUTMAX; i++)
+        if (i <= rl) __CPROVER_assert(buf[i] == ref[i], "result equals the reference expansion (text before and after each construct preserved)");
+}
+#endif
+#ifdef U_EXACT
+void harness(void)
+{
+    pick_input();
+    pick_environment();
+    setup_builtins();
+    check_exact();
+    VERIF_CANARY();
+}
+#endif
+#ifdef U_CASES
+/* concrete inputs (cbmc executes them; HOME and $a still range over unset / empty / set) */
+static const char *const cases[] = {
+#if CASESET == 1
+    "%a(a)", "%a(a a)", "%a( a)", "%a()", "a%a(a)a", "%a(%a(a))", "%a(a%a( ))a", "%a(%a(%a(a)))", "%a(a)%a(a)", "%A(a)",
+    "'%a(a)'", "\"%a(~)\"", "%a(~)", "%a(\\a)", "%a('~')", "%a((a))", "%a(a) )", "~%a(~)~",
+#elif CASESET == 2
+    "a%a", "a% a", "%%a(a)", "%(a)", "50%a a", "% %a(a)",
+#elif CASESET == 3
+    "%", "a%", "%a(a)%",
+#endif
+};
+#define NCASES (sizeof(cases) / sizeof(cases[0]))
+void harness(void)
+{
+    size_t t, i;
+    pick_environment();
+    setup_builtins();
+    for (t = 0; t < NCASES; t++) {
+        for (i = 0; i < NMAX && cases[t][i]; i++) w_in[i] = cases[t][i];
+        w_len = i;
+        for (; i <= NMAX; i++) w_in[i] = 0;
+        check_exact();
+    }
     VERIF_CANARY();
 }
 #endif
